@@ -58,9 +58,14 @@ func (t Timestamp) String() string {
 }
 
 // Add returns t+d.
+// A negative d larger than t gives 0: Timestamp cannot represent a time
+// before the epoch, and wrapping around would turn it into the far future.
 func (t Timestamp) Add(d Duration) Timestamp {
 	if d >= 0 {
 		return t + Timestamp(d)
+	}
+	if Timestamp(-d) > t {
+		return 0
 	}
 	return t - Timestamp(-d)
 }
